@@ -540,3 +540,22 @@ def coverage_diff(bam, bed, tmpdir, by_count, min_mapq, processes, tag="o"):
         tabio.write(coverage.do_coverage(bed, bam, by_count, min_mapq, 1, None), out_api)
 
     return _both(argv, api, out_cli, out_api, _cmp_cna)
+
+
+def reference_flat_diff(tbed, abed, fasta, tmpdir, male_ref, tag="l"):
+    from cnvlib import reference
+    from skgenome import tabio
+
+    out_cli, out_api = os.path.join(tmpdir, f"{tag}.cli.cnn"), os.path.join(tmpdir, f"{tag}.api.cnn")
+    argv = ["reference", "-t", tbed, "-o", out_cli]
+    if abed:
+        argv += ["-a", abed]
+    if fasta:
+        argv += ["-f", fasta]
+    if male_ref:
+        argv.append("-y")
+
+    def api():
+        tabio.write(reference.do_reference_flat(tbed, abed, fasta, male_ref), out_api)
+
+    return _both(argv, api, out_cli, out_api, _cmp_cna)
